@@ -199,6 +199,7 @@ class Module(object):
         self.normalize_log = normalize.inline_callable_aliases(self.tree)
         self.normalize_log += normalize.inline_new_helpers(self.tree, name)
         self.normalize_log += normalize.inline_callable_aliases(self.tree)
+        self.normalize_log += normalize.scalarize_tuple_locals(self.tree)
         self.normalize_log += normalize.split_tuple_assignments(self.tree)
         self.normalize_log += normalize.eta_reduce_callbacks(self.tree)
         self.normalize_log += normalize.desugar_struct_objects(self.tree)
